@@ -327,3 +327,5 @@ w("C08", "polars container fills defaults for absent columns again", BL + "conta
 w("C13", "index_strategy loses its fallback filter", "pandera/strategies/pandas_strategies.py",
   "            strategy = strategy.filter(\n                # pylint: disable=cell-var-from-loop\n                lambda index, check=check: check(\n                    index.to_series().reset_index(drop=True)\n                ).check_passed\n            )\n",
   "            pass\n")
+w("C10", "Decimal.coerce uses .apply on an Index again", "pandera/engines/pandas_engine.py",
+  "        if isinstance(data_container, pd.Index):\n            # an Index has no ``apply`` method\n            return data_container.map(self.coerce_value)\n", "")
